@@ -394,6 +394,22 @@ def chunk_stream(stream, mode, seed, offs):
     return out
 
 
+
+def _lose(conn, case):
+    """the TCP connection goes away, reported the way Twisted reports it: an orderly end of stream (FIN: the peer
+    exited, was interrupted, the relay dropped the pair) as Failure(ConnectionDone), a reset as Failure(ConnectionLost),
+    or with no reason at all (what the suite's own fakes do).  Which one is part of the case (`loss`; derived from the
+    chunking seed when absent); the property does not depend on it: a transfer cut short is never a success."""
+    from twisted.internet.error import ConnectionDone, ConnectionLost
+    how = case.get("loss") or ["none", "done", "lost"][(case.get("cseed") or 0) % 3]
+    if how == "done":
+        conn.connectionLost(Failure(ConnectionDone()))
+    elif how == "lost":
+        conn.connectionLost(Failure(ConnectionLost()))
+    else:
+        conn.connectionLost()
+
+
 def run_xfer(case):
     box = tempfile.mkdtemp(prefix="wv_c04_")
     try:
@@ -648,8 +664,8 @@ def _run_xfer(case, box, srcname):
     conn_lost = False
     if cut or dead or stuck:
         # the TCP connection is gone for both ends
-        cr.connectionLost()
-        cs.connectionLost()
+        _lose(cr, case)
+        _lose(cs, case)
         conn_lost = True
         lines.append("lost")
         exp.append(rx.summary())
@@ -666,13 +682,13 @@ def _run_xfer(case, box, srcname):
     elif ackmode == "honest":
         if back:
             feed(cs, back)
-        cs.connectionLost()
+        _lose(cs, case)
         lines.append("ackhonest")
     elif ackmode in ("drop", "flip"):
         if ackmode == "flip" and back:
             p = case.get("ackpos", 0) % len(back)
             feed(cs, back[:p] + bytes([back[p] ^ 1]) + back[p + 1:])
-        cs.connectionLost()
+        _lose(cs, case)
         lines.append("ack none")
     else:
         other = payload_bytes(len(content) + 1, 4242) if ackmode == "wronghash" else content
@@ -698,7 +714,7 @@ def _run_xfer(case, box, srcname):
             raise ValueError(ackmode)
         rec = dict_to_bytes(ack) if ack is not None else case.get("garbage", "[1, 2").encode()
         feed(cs, frame_with(key_r, 0, rec))
-        cs.connectionLost()
+        _lose(cs, case)
         lines.append(line)
     ss = outcome(d_s, sender=True)
     exp.append(ss)
@@ -807,7 +823,7 @@ def run_records(case):
                 exp.append(rx.summary())
             elif ev == "l" and not lost:
                 lost = True
-                cr.connectionLost()
+                _lose(cr, case)
                 lines.append("lost")
                 exp.append(rx.summary())
         rs = outcome(rx.d)
@@ -896,6 +912,11 @@ def corpus():
             for off in (1, 5, 27, 30, -1, -17):
                 out.append(xfer(filep(sz), fault=dict(kind="flip", at=["rec", j, off], bit=off % 8), chunk="rand", cseed=off % 5))
         out.append(xfer(filep(sz), fault=dict(kind="cut", at=["ratio", 1 << 20]), chunk="rand"))   # after the last data byte
+        # an ORDERLY end of stream (FIN) / a reset in the middle of the file, at a record boundary and inside a record
+        for how in ("done", "lost"):
+            out.append(xfer(filep(sz), fault=dict(kind="cut", at=["rec", nrec - 1, 0]), chunk="rec", loss=how))
+            out.append(xfer(filep(sz), fault=dict(kind="cut", at=["rec", nrec - 1, 30]), chunk="rand", cseed=3, loss=how))
+            out.append(xfer(filep(sz), fault=dict(kind="cut", at=["ratio", 1 << 19]), chunk="all", loss=how))
     out.append(xfer(filep(3 * CHUNK), fault=dict(kind="cut", at=["rec", 1, 100]), early=99, lost_before_connect=True))
     out.append(xfer(filep(40), fault=dict(kind="cut", at=["rec", 0, 10]), early=99, lost_before_connect=True))
     for sz in [0, 5, CHUNK + 1]:
